@@ -84,14 +84,8 @@ Definition run_built (a : sx) : sx :=
           let root := N.to_nat root in
           match tree_at (S (List.length cells)) cells root with
           | Some t =>
-              let pidx := flat_map (fun p => match index_of cells root (path_of_sx p) with
-                                             | Some i => [i] | None => [] end) paths in
-              let pruned (p : list nat) : bool :=
-                match index_of cells root p with
-                | Some i => existsb (Nat.eqb i) pidx
-                | None => false
-                end in
-              sx_rows (create_proof sha256 pruned t)
+              (* the cursor prunes positions (paths), not cells *)
+              sx_rows (create_proof sha256 (in_paths (map path_of_sx paths)) t)
           | None => sx_err "tree"
           end
       | None => sx_err "dag"
